@@ -34,17 +34,18 @@ def d3_excluded(index, size):
     return 1 <= index and index + 1 <= size // 2
 
 
-def d3_under_refusal(index, size):
-    """Cursor insertions (it_add / zit_add) in histories meant for the runner's refusal enumeration (`fault`).
-    The runner refuses ONE allocator call of the history, so one growing operation of the simulated history had
-    no effect on the real object: its real size is then up to 1 smaller than simulated (2: an aliased zit_add
-    inserts two elements) and a cursor is up to as many positions behind (a refused it_add does not advance;
-    a shorter deque ends the walk earlier).  The real call is add_at(index - a) on size - b elements for some
-    0 <= a <= b <= 2, and it is finding D3 exactly when d3_excluded(index - a, size - b): precisely those
-    positions are kept out, nothing wider.  (Direct add_at calls need no such margin: the real size is never
-    larger than the simulated one and d3_excluded(i, n') implies d3_excluded(i, n) for n' <= n.)"""
-    return any(d3_excluded(index - a, size - b) for b in range(3) for a in range(b + 1)
-               if index - a >= 0 and size - b >= 0)
+def d3_risky_under_fault(index, size):
+    """Histories meant for the runner's refusal enumeration (`fault`).  The runner refuses ONE allocator call of ANY
+    earlier operation (growth, trim, a mk_* builder, the constructor), so the real object can differ from the
+    simulated one: it is usually one element shorter, but it can also be LONGER (refused add_first x, remove_at of
+    the last index rejected on the shorter real deque, then `remove x` finds nothing to remove), and by-position /
+    by-value / parity operations can widen the gap by a few elements in either direction.  The real call is
+    add_at(index) on some size n'; it avoids finding D3 (1 <= index <= n'/2 - 1) for EVERY n' <= 2*index + 1.
+    Kept are therefore only index 0 (never D3), rejected indices (>= size) and index >= size/2 + 2, which is safe
+    for every real size up to size + 5 and every smaller one; everything else is kept out.  Wider than the
+    `finding:` text on purpose; tools check: every single-refusal variant of the fault streams was replayed on the
+    real harness asserting that no add_at / it_add / zit_add executes at a D3 position (seeds 0..40)."""
+    return not (index == 0 or index > size // 2 + 1 or index >= size)
 
 
 def upper_pow_two(n):
@@ -183,7 +184,7 @@ class DequeGen:
                 if i < n and d3_excluded(i, n):
                     i = n
             else:
-                cand = [i for i in range(n) if not d3_excluded(i, n)]     # also under `fault`: see d3_under_refusal
+                cand = [i for i in range(n) if not (d3_risky_under_fault(i, n) if fault else d3_excluded(i, n))]
                 if not cand:
                     return self.core_op(rng, sim, ops, slot, reject, fault, "add_last", allow_fail)
                 i = rng.choice(cand)
@@ -257,7 +258,7 @@ class DequeGen:
         does (index + last_removed flag), so every call is predictable wherever the cursor stands: behind the end
         after direct removals (`mixed`), before the first next, twice on the same element."""
         sfx = f" o={slot}" if slot else ""
-        ex = d3_under_refusal if fault else d3_excluded
+        ex = d3_risky_under_fault if fault else d3_excluded
         ops.append(f"it_new{sfx}")
         pos, removed = 0, False
         n = lambda: len(sim.items)
@@ -339,7 +340,7 @@ class DequeGen:
                 break
 
     def zip_program(self, rng, s1, s2, ops, a=0, b=1, fault=False, reject=False, allow_fail=False, mixed=False):
-        ex = d3_under_refusal if fault else d3_excluded
+        ex = d3_risky_under_fault if fault else d3_excluded
         ops.append(f"zit_new o={a} o2={b}")
         pos, removed = 0, False
         m = lambda: min(len(s1.items), len(s2.items))
@@ -425,7 +426,7 @@ class DequeGen:
         element and its successor, replace leaves the second value.
         Since repair D13 a refused growth inside the second add_at is all-or-nothing as well
         (corpus/deque/regress_D13_zip_alias_add_refused.ops), so fail= / fault enumeration is allowed here."""
-        ex = d3_under_refusal if fault else d3_excluded
+        ex = d3_risky_under_fault if fault else d3_excluded
         ops.append(f"zit_new o={slot} o2={slot}")
         pos, removed = 0, False
         n = lambda: len(s.items)
